@@ -121,3 +121,18 @@ Theorem C07_py310_reads_below_limit : forall f vs bl rds,
                    end) rds.
 Proof. exact py310_reads_below_limit. Qed.
 Print Assumptions C07_py310_reads_below_limit.
+
+(* FrameDetails.blocks come from the ACCEPTED position: for all schedules -- in particular whatever the
+   target does at switch point P6, between acceptance ("snap:ok") and the walk over the exception
+   table -- the position handed to the walk is the accepted lasti_before, the blocks are those of that
+   position, and the stack is the consistent snapshot of the same position.  Instantiated on
+   SrcFacts.snapshot_blocks_from_accepted (the walk starts from the variable assigned from lasti_before
+   in the accepted attempt, no fresh f_lasti read after the retry loop).
+   Examples: P_Snapshot.ex_blocks, ex_blocks_from_fresh_lasti. *)
+Theorem C07_blocks_of_accepted_position : forall t tg ssize rl d env garb w,
+  wf_env (the_xcfg t tg ssize rl) d env -> wf_world (the_xcfg t tg ssize rl) d w ->
+  forall L st g w6 bp bl, inspect (the_xcfg t tg ssize rl) env garb w = (OOk L st, g, w6, (bp, bl)) ->
+  bp = L /\ bl = blocks_at (the_xcfg t tg ssize rl) L /\
+  exists pre rs, reads g = pre ++ rs /\ consistent_snapshot (the_xcfg t tg ssize rl) d L st rs.
+Proof. exact C07_blocks_inst. Qed.
+Print Assumptions C07_blocks_of_accepted_position.
